@@ -6,73 +6,113 @@ entries stored under a function identifier may be served to the function object 
 Python → Lean
 * a function object (`id(func)`; a new one for every executed `def`)      : `Obj = Nat`
 * a source text, as `func_inspect.get_func_code` returns it (the text of the `def` block; two
-  definitions with the same text are the same `Src`); `hash(func.__code__)` is identified with
-  it (a code object swap changes both)                                    : `Src = Nat`
+  definitions with the same text are the same `Src`)                      : `Src = Nat`
+* a code object (`func.__code__`): its identity and the source text it was compiled from.  Code
+  objects are immutable; `hash(func.__code__)` (which covers `co_firstlineno`) is identified with
+  the pair, so two code objects are told apart even when their texts agree   : `CodeId = Nat × Src`
 * `is_named_callable` of `_write_func_code` (false for lambdas)           : `named : Bool`
-* the function objects alive in the current process                       : `State.live`
+* the function objects alive in the current process, each with its current `__code__`
+                                                                          : `State.live`
+* the `MemorizedFunc` objects (`memory.cache(f)`; several may wrap one function), each with its
+  `_func_code_id` and the source part of `_func_code_info`               : `State.wraps`
 * `_FUNCTION_HASHES[func] = (id(func), hash(func), hash(func.__code__))`   : `State.table`
-  (`dget o table = some s`: registered with code `s`)
-* `_FUNC_CODE_WRITERS[(location, func_id)]` (fixes/F10-same-name-redefinition.diff): the function
-  hash that last wrote `func_code.py` in this process                     : `State.writer`
-* `<location>/joblib/<func_id>/func_code.py`                              : `State.code`
-  (`none` = no such file).  The file starts with `# first line: N`; `extract_first_line` strips it
-  and `_check_previous_func_code` compares ONLY the source text (`old_func_code == func_code`);
-  the line number is used for the collision warnings alone, so it is not part of the state.
+* `_FUNC_CODE_WRITERS[(location, func_id)]`: the function hash that last wrote `func_code.py` in
+  this process                                                            : `State.writer`
+* `<location>/joblib/<func_id>/func_code.py`                              : `State.code : CodeFile`
+  `missing` (no such file), `unreadable` (it does not read back: `extract_first_line` /
+  the utf-8 decoder raise `ValueError` — a file cut inside its `# first line:` header or inside a
+  multi-byte character), `other` (readable, but the text is no function's source: cut anywhere
+  else), `ok s` (the source `s`).  The file starts with `# first line: N`; `extract_first_line`
+  strips it and `_check_previous_func_code` compares ONLY the source text, EXACTLY
+  (`old_func_code == func_code`); the line number serves the collision warnings alone.
 * `<func_id>/<args_id>/output.pkl`                                        : `State.entries`
   (argument ↦ stored value; the argument key itself is C02/C06's business: here `Nat`)
-* `MemorizedFunc._hash_func`                → `(o, src)`
+* `MemorizedFunc.func_code_info`            → `funcCodeInfo`
+* `MemorizedFunc._hash_func`                → `(o, cur)`
 * `MemorizedFunc._write_func_code`          → `writeFuncCode`
-* `MemorizedFunc.clear`                     → `clearFn` (`clear_path` then `_write_func_code`)
+* `MemorizedFunc.clear`                     → `clearWrite` (`clear_path`, `func_code_info`,
+  `_write_func_code`)
 * `MemorizedFunc._check_previous_func_code` → `checkPrevious` (`shortcut` = the `_FUNCTION_HASHES`
-  branch)
+  branch; `IOError` → write; `ValueError` → clear; differing text → clear)
 * `MemorizedFunc._is_in_cache_and_valid`    → `isInCache` (no validation callback here)
-* `MemorizedFunc._cached_call` / `check_call_in_cache` / `Memory.clear` → cases of `step`
-* starting a fresh process: `live`, `table`, `writer` emptied, the disk kept.
+* `_cached_call` / `check_call_in_cache` / `MemorizedFunc.clear` / `Memory.clear` → cases of `step`
+* `f.__code__ = g.__code__`                 → `Op.swap`
+* a fault on `func_code.py` (writer killed, file deleted)                 → `Op.damage`
+* starting a fresh process: `live`, `wraps`, `table`, `writer` emptied, the disk kept.
 * `sem k a`: the value the code with source `k` computes on argument `a` (a parameter).
 
-Two versions of the code, selected by `Version`:
-* `.fixed` — with fixes/F10-same-name-redefinition.diff: the shortcut also demands that this very
-  function hash is the one that last wrote `func_code.py`;
-* `.old`   — the pinned tree: the shortcut looks at `_FUNCTION_HASHES` only (F10).
+Versions of the code, selected by `Cfg`:
+* `writerCheck`  — fixes/F10-same-name-redefinition.diff (committed): the shortcut also demands
+  that this very function hash last wrote `func_code.py`; `false` = the pinned tree (F10);
+* `infoIdUpdate` — fixes/F38-code-swap.diff: `func_code_info` records the code object its cached
+  source belongs to; `false` = `_func_code_id` keeps the FIRST code object ever seen, so that
+  swapping back to it revives a stale cached source (F38).
 
 Not modelled: the collision warnings; weak-reference removal of dead functions from
-`_FUNCTION_HASHES` (objects stay alive until the process ends); concurrent processes (C11).
+`_FUNCTION_HASHES` (objects stay alive until the process ends); concurrent processes (C11);
+defaults / closures of a function (they are not part of its code object).
 Import-free apart from the dict helpers of `FilterArgs`; total, computable.
 -/
 import JoblibModel.FilterArgs
 namespace JoblibModel.FuncCode
 open JoblibModel.FilterArgs (dget dset)
 
-inductive Version where
-  | old
-  | fixed
+structure Cfg where
+  writerCheck : Bool
+  infoIdUpdate : Bool
 deriving DecidableEq, Repr
+
+/-- The repaired code. -/
+def Cfg.fixed : Cfg := ⟨true, true⟩
 
 abbrev Obj := Nat
 abbrev Src := Nat
+abbrev CodeId := Nat × Src
+
+inductive CodeFile where
+  | missing
+  | unreadable
+  | other
+  | ok (s : Src)
+deriving DecidableEq, Repr
+
+/-- What a fault leaves of `func_code.py`. -/
+inductive Damage where
+  | delete
+  | unreadable
+  | other
+deriving DecidableEq, Repr
+
+/-- `_func_code_id` and the source in `_func_code_info` of one `MemorizedFunc`. -/
+abbrev InfoCache := Option CodeId × Option Src
 
 structure State (R : Type) where
-  live : List (Obj × (Src × Bool)) := []
-  table : List (Obj × Src) := []
-  writer : Option (Obj × Src) := none
-  code : Option Src := none
+  live : List (Obj × (CodeId × Bool)) := []
+  wraps : List (Nat × (Obj × InfoCache)) := []
+  table : List (Obj × CodeId) := []
+  writer : Option (Obj × CodeId) := none
+  code : CodeFile := .missing
   entries : List (Nat × R) := []
 deriving Repr
 
 inductive Op where
-  /-- a `def` (or `lambda`, `named = false`) is executed: a new function object `o` with source `k`,
-  wrapped with `memory.cache` -/
+  /-- a `def` (or `lambda`, `named = false`) is executed: a new function object `o` whose code object
+  `(o, k)` has source `k`, wrapped with `memory.cache` (wrapper `o`) -/
   | define (o : Obj) (k : Src) (named : Bool)
-  /-- `o.__code__ = <code object whose source is k>` -/
-  | swap (o : Obj) (k : Src)
-  /-- the cached function of `o` is called with argument `a` -/
-  | call (o : Obj) (a : Nat)
+  /-- `memory.cache(f_o)` once more: another `MemorizedFunc` `w` on the same function -/
+  | wrap (w : Nat) (o : Obj)
+  /-- `f_o.__code__ = c` -/
+  | swap (o : Obj) (c : CodeId)
+  /-- the cached function `w` is called with argument `a` -/
+  | call (w : Nat) (a : Nat)
   /-- `check_call_in_cache` -/
-  | check (o : Obj) (a : Nat)
+  | check (w : Nat) (a : Nat)
   /-- `MemorizedFunc.clear()` -/
-  | clearFn (o : Obj)
+  | clearFn (w : Nat)
   /-- `Memory.clear()` -/
   | clearAll
+  /-- `func_code.py` is truncated / deleted (no effect when there is no such file) -/
+  | damage (d : Damage)
   /-- the process ends, a new one starts on the same cache directory -/
   | fresh
 deriving DecidableEq, Repr
@@ -81,83 +121,126 @@ inductive Out (R : Type) where
   | value (r : R) (executed : Bool)
   | flag (b : Bool)
   | done
-  /-- the object is not alive in this process (a malformed history) -/
+  /-- the wrapper / object is not alive in this process (a malformed history) -/
   | notLive
 deriving DecidableEq, Repr
 
 variable {R : Type}
 
+/-- What a wrapper resolves to: its function, the function's current code object, `named`, and the
+wrapper's cached source. -/
+def lookup (st : State R) (w : Nat) : Option (Obj × CodeId × Bool × InfoCache) :=
+  match dget w st.wraps with
+  | none => none
+  | some (o, ic) =>
+    match dget o st.live with
+    | none => none
+    | some (cur, named) => some (o, cur, named, ic)
+
+/-- The `func_code_info` property: the source it returns and the cache afterwards. -/
+def funcCodeInfo (cfg : Cfg) (cur : CodeId) (ic : InfoCache) : Src × InfoCache :=
+  let ic' : InfoCache :=
+    match ic.1 with
+    | none => (some cur, ic.2)                                  -- `_func_code_id is None`
+    | some c0 =>
+      if c0 = cur then ic
+      else (if cfg.infoIdUpdate then some cur else some c0, none)  -- `__code__` was reassigned
+  match ic'.2 with
+  | some s => (s, ic')
+  | none => (cur.2, (ic'.1, some cur.2))                          -- `get_func_code(self.func)`
+
 /-- `_write_func_code`: store the source, register the function hash (named callables only) and
 remember it as the writer of `func_code.py`. -/
-def writeFuncCode (st : State R) (o : Obj) (src : Src) (named : Bool) : State R :=
+def writeFuncCode (st : State R) (o : Obj) (cur : CodeId) (src : Src) (named : Bool) : State R :=
   { st with
-    code := some src
-    table := if named then dset o src st.table else st.table
-    writer := if named then some (o, src) else none }
+    code := .ok src
+    table := if named then dset o cur st.table else st.table
+    writer := if named then some (o, cur) else none }
 
 /-- `MemorizedFunc.clear`: wipe the function's directory, write the code again. -/
-def clearFn (st : State R) (o : Obj) (src : Src) (named : Bool) : State R :=
-  writeFuncCode { st with entries := [] } o src named
+def clearWrite (st : State R) (o : Obj) (cur : CodeId) (src : Src) (named : Bool) : State R :=
+  writeFuncCode { st with entries := [] } o cur src named
 
 /-- The in-memory branch of `_check_previous_func_code`. -/
-def shortcut (ver : Version) (st : State R) (o : Obj) (src : Src) : Bool :=
+def shortcut (cfg : Cfg) (st : State R) (o : Obj) (cur : CodeId) : Bool :=
   match dget o st.table with
-  | some h => decide (h = src) && (decide (ver = .old) || decide (st.writer = some (o, src)))
+  | some h => decide (h = cur) && (!cfg.writerCheck || decide (st.writer = some (o, cur)))
   | none => false
 
-/-- `_check_previous_func_code`: the answer and the state afterwards. -/
-def checkPrevious (ver : Version) (st : State R) (o : Obj) (src : Src) (named : Bool) :
-    Bool × State R :=
-  if shortcut ver st o src then (true, st)
+/-- `_check_previous_func_code` of wrapper `w`: the answer and the state afterwards. -/
+def checkPrevious (cfg : Cfg) (st : State R) (w : Nat) (o : Obj) (cur : CodeId) (named : Bool)
+    (ic : InfoCache) : Bool × State R :=
+  if shortcut cfg st o cur then (true, st)
   else
+    let fi := funcCodeInfo cfg cur ic
+    let st1 := { st with wraps := dset w (o, fi.2) st.wraps }
     match st.code with
-    | none => (false, writeFuncCode st o src named)             -- IOError: first use of the directory
-    | some old => if old = src then (true, st) else (false, clearFn st o src named)
+    | .missing => (false, writeFuncCode st1 o cur fi.1 named)     -- IOError: no func_code.py
+    | .unreadable => (false, clearWrite st1 o cur fi.1 named)     -- ValueError: treated as changed
+    | .other => (false, clearWrite st1 o cur fi.1 named)          -- the text differs
+    | .ok old => if old = fi.1 then (true, st1) else (false, clearWrite st1 o cur fi.1 named)
 
 /-- `_is_in_cache_and_valid` (`contains_item` after the code check). -/
-def isInCache (ver : Version) (st : State R) (o : Obj) (src : Src) (named : Bool) (a : Nat) :
-    Option R × State R :=
-  let r := checkPrevious ver st o src named
+def isInCache (cfg : Cfg) (st : State R) (w : Nat) (o : Obj) (cur : CodeId) (named : Bool)
+    (ic : InfoCache) (a : Nat) : Option R × State R :=
+  let r := checkPrevious cfg st w o cur named ic
   (if r.1 then dget a r.2.entries else none, r.2)
 
-def step (ver : Version) (sem : Src → Nat → R) (st : State R) : Op → Out R × State R
-  | .define o k named => (.done, { st with live := dset o (k, named) st.live })
-  | .swap o k =>
+def applyDamage (c : CodeFile) (d : Damage) : CodeFile :=
+  match c with
+  | .missing => .missing
+  | _ =>
+    match d with
+    | .delete => .missing
+    | .unreadable => .unreadable
+    | .other => .other
+
+def step (cfg : Cfg) (sem : Src → Nat → R) (st : State R) : Op → Out R × State R
+  | .define o k named =>
+    (.done, { st with live := dset o ((o, k), named) st.live, wraps := dset o (o, (none, none)) st.wraps })
+  | .wrap w o =>
     match dget o st.live with
-    | some (_, named) => (.done, { st with live := dset o (k, named) st.live })
+    | some _ => (.done, { st with wraps := dset w (o, (none, none)) st.wraps })
     | none => (.notLive, st)
-  | .call o a =>
+  | .swap o c =>
     match dget o st.live with
+    | some (_, named) => (.done, { st with live := dset o (c, named) st.live })
     | none => (.notLive, st)
-    | some (src, named) =>
-      let r := isInCache ver st o src named a
+  | .call w a =>
+    match lookup st w with
+    | none => (.notLive, st)
+    | some (o, cur, named, ic) =>
+      let r := isInCache cfg st w o cur named ic a
       match r.1 with
       | some v => (.value v false, r.2)
       | none =>
-        let v := sem src a
+        let v := sem cur.2 a                     -- the function runs its CURRENT code
         (.value v true, { r.2 with entries := dset a v r.2.entries })
-  | .check o a =>
-    match dget o st.live with
+  | .check w a =>
+    match lookup st w with
     | none => (.notLive, st)
-    | some (src, named) =>
-      let r := isInCache ver st o src named a
+    | some (o, cur, named, ic) =>
+      let r := isInCache cfg st w o cur named ic a
       (.flag r.1.isSome, r.2)
-  | .clearFn o =>
-    match dget o st.live with
+  | .clearFn w =>
+    match lookup st w with
     | none => (.notLive, st)
-    | some (src, named) => (.done, clearFn st o src named)
-  | .clearAll => (.done, { st with code := none, entries := [], table := [], writer := none })
-  | .fresh => (.done, { st with live := [], table := [], writer := none })
+    | some (o, cur, named, ic) =>
+      let fi := funcCodeInfo cfg cur ic
+      (.done, clearWrite { st with wraps := dset w (o, fi.2) st.wraps } o cur fi.1 named)
+  | .clearAll => (.done, { st with code := .missing, entries := [], table := [], writer := none })
+  | .damage d => (.done, { st with code := applyDamage st.code d })
+  | .fresh => (.done, { st with live := [], wraps := [], table := [], writer := none })
 
 /-- Outputs of a history. -/
-def run (ver : Version) (sem : Src → Nat → R) : State R → List Op → List (Out R)
+def run (cfg : Cfg) (sem : Src → Nat → R) : State R → List Op → List (Out R)
   | _, [] => []
-  | st, op :: ops => (step ver sem st op).1 :: run ver sem (step ver sem st op).2 ops
+  | st, op :: ops => (step cfg sem st op).1 :: run cfg sem (step cfg sem st op).2 ops
 
 /-- State after a history. -/
-def exec (ver : Version) (sem : Src → Nat → R) : State R → List Op → State R
+def exec (cfg : Cfg) (sem : Src → Nat → R) : State R → List Op → State R
   | st, [] => st
-  | st, op :: ops => exec ver sem (step ver sem st op).2 ops
+  | st, op :: ops => exec cfg sem (step cfg sem st op).2 ops
 
 def init : State R := {}
 
